@@ -46,7 +46,21 @@ func jsonFields(v reflect.Value) []jfield {
 	return out
 }
 
+// dumpNormEmpty: when set, empty (non-nil) slices and maps are printed like nil ones — the identification
+// `omitempty` forces on every encode/decode round trip.
+var dumpNormEmpty = false
+
+// dumpNorm dumps x identifying nil and empty containers.
+func dumpNorm(x interface{}) string {
+	dumpNormEmpty = true
+	defer func() { dumpNormEmpty = false }()
+	return dumpAny(x)
+}
+
 func dumpVal(v reflect.Value) string {
+	if dumpNormEmpty && (v.Kind() == reflect.Slice || v.Kind() == reflect.Map) && v.Len() == 0 {
+		return "~"
+	}
 	switch v.Kind() {
 	case reflect.Bool:
 		if v.Bool() {
